@@ -76,21 +76,21 @@ theorem check_complete (l : IMAP) (existing new : Int) (uid : Nat) (he : 0 ≤ e
 
 /-! ## check, then insert -/
 
-/-- **Limits invariant, under the named hypotheses `NoRenameParents` and `ChecksInsideTx`** — for
+/-- **Limits invariant, under the named hypothesis `ChecksInsideTx`** — for
     every constructible limit configuration, every world within the limits with no check in
     flight, and every history of CREATE (with any number of missing superiors: `State.Create` checks the
-    limit for all the mailboxes it is about to create), RENAME (`renameParents`: its missing superiors
-    are created without a check — hence the hypothesis, for RENAME only), in-transaction adds (connector batches, COPY / MOVE — also
+    limit for all the mailboxes it is about to create), RENAME (`renameParents`: `State.Rename` checks the
+    limit for the missing superiors of the new name before it creates them), in-transaction adds (connector batches, COPY / MOVE — also
     onto a destination that already holds `k` of the messages: `replaceTx k n`),
     out-of-transaction check + insert pairs (APPEND), removals and mailbox deletions: *every*
     state the history passes through keeps the number of mailboxes, the number of messages and
     UIDNEXT within the configured maxima. -/
 theorem limits_invariant_partial (l : IMAP) (hl : U32Limits l) (w : World) (hw : Within l w)
     (hpass : w.passed = []) (evs : List Ev)
-    (hNoRenameParents : NoRenameParents evs) (hChecksInsideTx : ChecksInsideTx evs)
+    (hChecksInsideTx : ChecksInsideTx evs)
     (hint : EvsInt64 evs) :
     ∀ w' ∈ trace l evs w, Within l w' :=
-  trace_within l hl evs none w ⟨hw, hpass⟩ hNoRenameParents hChecksInsideTx hint
+  trace_within l hl evs none w ⟨hw, hpass⟩ hChecksInsideTx hint
 
 /-- **CREATE keeps the mailbox limit, implicit parents included** — no hypothesis on the history, the
     limits or the number of missing superiors: from a world within the limits a CREATE leaves a world
@@ -134,26 +134,66 @@ theorem create_parents_refused_example :
     Within l w ∧ runEvs l [.create 3] w = w ∧ (runEvs l [.create 0] w).mailboxes = 4 := by
   refine ⟨by decide, by decide, by decide⟩
 
-/-- **`NoRenameParents` is needed** — limit 4, three mailboxes present (one of them `a`),
-    `RENAME a p/q/r/s` (three missing superiors of the new name): `State.Rename` creates them with no
-    limit check: 6.  The history satisfies `ChecksInsideTx`. -/
-theorem rename_parents_witness :
+/-- **RENAME keeps the mailbox limit, implicit parents included** — no hypothesis on the history, the
+    limits or the number of missing superiors of the new name (the new home of a renamed INBOX counted
+    among them): from a world within the limits a RENAME leaves a world within the limits. -/
+theorem rename_within (l : IMAP) (w : World) (hw : Within l w) (parents : Nat) :
+    Within l (step l w (.renameParents parents)) := by
+  simp only [step]
+  split
+  · exact hw
+  · rename_i hck
+    unfold Within at hw ⊢
+    simp only [Int.natCast_add]
+    by_cases hp0 : parents = 0
+    · subst hp0; simp; omega
+    · have hpos : parents > 0 := by omega
+      simp only [hpos, decide_true, Bool.true_and, Bool.not_eq_false, Bool.not_eq_eq_eq_not, Bool.not_true,
+        Option.isNone_iff_eq_none, checkMailBoxCount] at hck
+      split at hck
+      · simp at hck
+      · omega
+
+/-- **RENAME is applied exactly when everything it creates fits** — with nothing to create it is always
+    applied (the mailbox count does not change: no check may refuse it); otherwise the `parents` new
+    mailboxes are created iff `mailboxes + parents ≤ maxMailboxCount`, and a refusal is the identity
+    (nothing created, nothing renamed: no partial effect). -/
+theorem rename_applied_iff_fits (l : IMAP) (w : World) (parents : Nat) :
+    step l w (.renameParents parents) =
+      if parents = 0 ∨ (w.mailboxes : Int) + parents ≤ l.maxMailboxCount then { w with mailboxes := w.mailboxes + parents }
+      else w := by
+  simp only [step, checkMailBoxCount]
+  by_cases hp0 : parents = 0
+  · subst hp0; simp
+  · have hpos : parents > 0 := by omega
+    by_cases h : (w.mailboxes : Int) + parents ≤ l.maxMailboxCount
+    · have h2 : ¬ ((w.mailboxes : Int) + (parents : Int) - 1 ≥ l.maxMailboxCount) := by omega
+      simp [h, h2]
+    · have h2 : (w.mailboxes : Int) + (parents : Int) - 1 ≥ l.maxMailboxCount := by omega
+      simp [hp0, hpos, h, h2]
+
+/-- **The former RENAME defect, now refused** (was `rename_parents_witness`; real server before the repair:
+    limit 3, three mailboxes, `RENAME a p/q/r/s` -> 6) — limit 4, three mailboxes present, three missing
+    superiors of the new name: 3 + 3 - 1 = 5 ≥ 4: refused, the world is unchanged; a RENAME with no missing
+    superior is applied even AT the limit; one missing superior still fits. -/
+theorem rename_parents_refused_example :
     let l := newIMAPLimits 4 100 100 100
     let w : World := { mailboxes := 3, count := 0, uidNext := 1, passed := [] }
-    Within l w ∧ ChecksInsideTx [.renameParents 3] ∧
-      (runEvs l [.renameParents 3] w).mailboxes = 6 ∧ ¬ Within l (runEvs l [.renameParents 3] w) := by
-  refine ⟨by decide, by simp [ChecksInsideTx, CheckThenInsert], by decide, by decide⟩
+    let full : World := { mailboxes := 4, count := 0, uidNext := 1, passed := [] }
+    Within l w ∧ runEvs l [.renameParents 3] w = w ∧ (runEvs l [.renameParents 1] w).mailboxes = 4 ∧
+      runEvs l [.renameParents 0] full = full ∧ runEvs l [.renameParents 1] full = full := by
+  refine ⟨by decide, by decide, by decide, by decide, by decide⟩
 
 /-- **`ChecksInsideTx` is needed** — message limit 1, empty mailbox, two sessions APPEND at the
     same time with the schedule check₁ check₂ insert₁ insert₂: both checks see 0 + 1 ≤ 1 and both
-    inserts happen: 2 messages.  The history satisfies `NoRenameParents`. -/
+    inserts happen: 2 messages. -/
 theorem append_race_witness :
     let l := newIMAPLimits 10 1 100 100
     let w : World := { mailboxes := 1, count := 0, uidNext := 1, passed := [] }
     let evs : List Ev := [.check 1 1, .check 2 1, .insert 1, .insert 2]
-    Within l w ∧ NoRenameParents evs ∧ ¬ ChecksInsideTx evs ∧
+    Within l w ∧ ¬ ChecksInsideTx evs ∧
       (runEvs l evs w).count = 2 ∧ ¬ Within l (runEvs l evs w) := by
-  refine ⟨by decide, by simp [NoRenameParents], by simp [ChecksInsideTx, CheckThenInsert], by decide, by decide⟩
+  refine ⟨by decide, by simp [ChecksInsideTx, CheckThenInsert], by decide, by decide⟩
 
 /-! ## COPY / MOVE onto a destination that already holds some of the messages -/
 
@@ -295,10 +335,14 @@ example :
        checks `count + len(list) - 1` (room for all of them): the `create` step of the model, with no
        hypothesis about implicit parents (`create_within`, `create_applied_iff_fits`);
     4. the functions that insert a mailbox or a message with no check of their own are exactly
-       these five (`actionCreateMailbox` is covered once per CREATE by `State.Create`,
-       `actionCreateMessage` by `AppendRegular`'s outside check; `Rename`'s superiors,
-       `renameInbox`'s new mailbox and the recovery mailbox are not covered by any check:
-       `NoRenameParents`, `rename_parents_witness`). -/
+       these four (`actionCreateMailbox` is covered once per CREATE by `State.Create`,
+       `actionCreateAndGetMailbox` - `renameInbox`'s new mailbox - by `State.Rename`'s check (item 5),
+       `actionCreateMessage` by `AppendRegular`'s outside check; the recovery mailbox is not covered by any check);
+    5. `State.Rename` counts what it is about to create — `len` of the list of missing superiors its creating
+       loop ranges over, one more when INBOX is renamed, nothing else —, and, after the last `append` to that
+       list and before the loop and before every call that creates, renames or tells the connector, checks
+       `count + thatNumber - 1` (count = `GetMailboxCount()`) when the number is positive: the
+       `renameParents` step of the model (`rename_within`, `rename_applied_iff_fits`). -/
 theorem limit_sites_today :
     (∀ s ∈ Facts.limitCheckSites, s.ctx ≠ "unknown") ∧
     ((Facts.limitCheckSites.filter (fun s => s.ctx == "read")).map (fun s => (s.func, s.method))
@@ -311,14 +355,20 @@ theorem limit_sites_today :
         createsBeforeWholeCheck := 0, createInLoop := some true, checkInLoop := some false } ∧
     ((Facts.limitInsertSites.filter (fun s => !s.localCheck)).map (·.func)
         = ["State.actionCreateAndGetMailbox", "State.actionCreateMailbox", "State.actionCreateMessage",
-           "State.actionCreateRecoveredMessage", "State.Rename"]) := by
+           "State.actionCreateRecoveredMessage"]) ∧
+    Facts.stateRenameShape =
+      { found := true, checkCalls := 1, countVar := "mailboxCount", loopOver := "mboxesToCreate", quantityVar := "newMailboxes",
+        quantityIsLenOfList := true, inboxCountsOneMore := true, otherQuantityWrites := 0,
+        checkArgIsCountPlusQuantityMinusOne := true, guardedByQuantityPositive := true, checkAfterListBeforeLoop := true,
+        effectsBeforeCheck := 0, effects := 5 } := by
   decide
 
 /-- **Which limits, which quantity, how many transactions** (by `decide` over the regenerated tables):
     1. every `Check*` is called on the configured limits — a `….imapLimits` field (set from
        `gluon.WithIMAPLimits`) or a `limits.IMAP` parameter handed down (item 4) — never on
        `limits.DefaultLimits()` or a local value;
-    2. the quantity of every mailbox-count check is "one more" (a bare count) or, in `State.Create`,
+    2. the quantity of every mailbox-count check is "one more" (a bare count), in `State.Rename` the counted number
+       of mailboxes it is about to create (`stateRenameShape.quantityVar`, see `limit_sites_today` item 5) or, in `State.Create`,
        "`len` of the list more" — `State.Create` has exactly these two, the second on the list its
        creating loop ranges over (`stateCreateShape.loopOver`); the quantity of every message-count / UID check is the literal 1 (APPEND) or `len` of a slice
        parameter of the function, and that very slice is what the function then inserts
@@ -336,7 +386,8 @@ theorem limit_quantities_today :
     (∀ s ∈ Facts.limitCheckSites, s.limitsKind = "configured" ∨ s.limitsKind = "param") ∧
     ((∀ s ∈ Facts.limitCheckSites, (s.quantity = "n/a" ∧ s.method = "CheckUIDValidity") ∨
           (s.quantity = "one-more" ∧ s.method = "CheckMailBoxCount") ∨ s.quantity = "one" ∨ s.quantity = "len-of-param" ∨
-          (s.quantity = "len-of-list-more" ∧ s.func = "State.Create")) ∧
+          (s.quantity = "len-of-list-more" ∧ s.func = "State.Create") ∨
+          (s.quantity = "var-more" ∧ s.func = "State.Rename" ∧ s.quantityOf = Facts.stateRenameShape.quantityVar ∧ s.ctx = "tx")) ∧
       ((Facts.limitCheckSites.filter (fun s => s.func == "State.Create" && s.method == "CheckMailBoxCount")).map
           (fun s => (s.quantity, s.quantityOf, s.ctx))
         = [("one-more", "", "tx"), ("len-of-list-more", Facts.stateCreateShape.loopOver, "tx")]) ∧
@@ -389,10 +440,10 @@ example :
 example :
     let l := newIMAPLimits 3 3 100 100
     let w : World := { mailboxes := 1, count := 0, uidNext := 1, passed := [] }
-    let evs : List Ev := [.create 1, .create 0, .renameParents 0, .addTx 2, .check 7 1, .insert 7, .addTx 1, .remove 1, .addTx 1, .replaceTx 2 2]
-    U32Limits l ∧ Within l w ∧ NoRenameParents evs ∧ ChecksInsideTx evs ∧ EvsInt64 evs ∧
+    let evs : List Ev := [.create 1, .create 0, .renameParents 0, .renameParents 1, .addTx 2, .check 7 1, .insert 7, .addTx 1, .remove 1, .addTx 1, .replaceTx 2 2]
+    U32Limits l ∧ Within l w ∧ ChecksInsideTx evs ∧ EvsInt64 evs ∧
       runEvs l evs w = { mailboxes := 3, count := 3, uidNext := 7, passed := [] } := by
-  refine ⟨by decide, by decide, by simp [NoRenameParents], by simp [ChecksInsideTx, CheckThenInsert],
+  refine ⟨by decide, by decide, by simp [ChecksInsideTx, CheckThenInsert],
     by simp [EvsInt64], by decide⟩
 
 end Gluon.C17
